@@ -97,6 +97,7 @@ def scan_forbidden():
             if f.endswith('.v'):
                 p = os.path.join(dp, f)
                 txt = open(p).read()
+                txt = re.sub(r'"(?:[^"]|"")*"', '""', txt)          # string literals may contain "(*": not a comment
                 txt = re.sub(r'\(\*.*?\*\)', '', txt, flags=re.S)
                 for m in FORBIDDEN.finditer(txt):
                     bad.append('%s: %s' % (os.path.relpath(p, COQ), m.group(0)))
@@ -185,7 +186,9 @@ def check_assumptions(prop, props_ok):
     coqc on it alone and pair every `Print Assumptions` answer with its theorem."""
     path = os.path.join(COQ, 'theories', 'Props', prop + '.v')
     src = open(path).read()
-    src_nc = re.sub(r'\(\*.*?\*\)', '', src, flags=re.S)
+    # string literals first (a pinned source line like "list(zip(*req_sigs))" must not open a comment), then comments
+    src_ns = re.sub(r'"(?:[^"]|"")*"', '""', src)
+    src_nc = re.sub(r'\(\*.*?\*\)', '', src_ns, flags=re.S)
     names = re.findall(r'^\s*Theorem\s+(\w+)', src_nc, flags=re.M)
     printed = re.findall(r'^\s*Print Assumptions\s+(\w+)\s*\.', src_nc, flags=re.M)
     if not props_ok:
